@@ -5,7 +5,9 @@
     [inert_html] the compile-time string of one inert element; [parse] reads HTML into an element
     tree with attribute SETS and merged text (comments dropped); [denote] is defined on the
     template alone.  [wf]: readable names, no component tags, void elements empty, raw-text
-    elements hold text without "</", blocks are non-empty strings.  [KnownClass] = finding
+    elements hold text without "</", blocks are non-empty strings, no <script> below an SVG / MathML
+    element (finding F-C18-j: which of svg::script / html::script / the inert string renders it
+    depends on siblings; compared by the harness only).  [KnownClass] = finding
     F-C18-f (a <title> with two text children), for which the statements are refuted below.
     The model covers elements, attributes, class:/style: forms, text, blocks and fragments;
     rstml parsing, token plumbing and component/slot expansion are outside it (compared only). *)
